@@ -143,6 +143,15 @@ def case_topoints(ctx, family):
     out2 = fem.topoints(V, region, average=False)
     exp2 = np.array([[V[k, a, c] for k in range(2)] for c in range(nc) for a in range(ppc)], dtype=object if ctx.sym else float)
     ctx.equal("unaveraged_values_are_cellwise_corner_values", out2, exp2)
+    if nq == ppc:
+        # non-symmetric second-order tensors and a non-square (2, 3) block on the disconnected mesh (average=False)
+        outT2 = fem.topoints(T, region, average=False)
+        expT2 = np.array([[[T[i, j, a, c] for j in range(2)] for i in range(2)] for c in range(nc) for a in range(ppc)], dtype=object if ctx.sym else float)
+        ctx.equal("unaveraged_tensor_values_keep_their_component_order", outT2, expT2)
+        B = ctx.array("B", (2, 3, nq, nc), -1, 1)
+        outB = fem.topoints(B, region, average=False)
+        expB = np.array([[[B[i, j, a, c] for j in range(3)] for i in range(2)] for c in range(nc) for a in range(ppc)], dtype=object if ctx.sym else float)
+        ctx.equal("unaveraged_block_values_keep_their_shape_and_order", np.asarray(outB).reshape(expB.shape) if np.asarray(outB).size == expB.size else outB, expB)
 
 
 def case_stresses(ctx, family, kind):
@@ -262,6 +271,27 @@ def _same_node(a, b):
         return False
 
 
+def case_force_other_dims(ctx, fdim):
+    """tools.force for a first field whose number of components differs from the mesh dimension (a scalar field, a 3-component
+    field on a 2-D mesh), alone and as the first of two fields: the sum of the nodal values over the boundary points, per component"""
+    with ctx.concrete():
+        m = tiny_mesh("quad4x2")
+        region = fem.RegionQuad(m)
+        first = fem.Field(region, dim=fdim)
+        field = fem.FieldContainer([first, fem.Field(region, dim=2)])
+        mask = np.zeros(m.npoints, dtype=bool)
+        pts = [1, 2, m.npoints - 1]
+        mask[pts] = True
+        bnd = fem.Boundary(first, mask=mask)
+    n = sum(f.values.size for f in field.fields)
+    r = ctx.array("r", (n,), -2, 2)
+    got = np.asarray(fem.tools.force(field, r, bnd)).reshape(-1)
+    exp = np.array([sum(r[fdim * p + i] for p in pts) for i in range(fdim)], dtype=object if ctx.sym else float)
+    ctx.check_concrete("one_value_per_component_of_the_field", got.shape == exp.shape, "shape %s" % (got.shape,))
+    if got.shape == exp.shape:
+        ctx.equal("force_is_sum_of_nodal_values_over_boundary_points", got, exp)
+
+
 def case_force_moment(ctx, dim):
     with ctx.concrete():
         m = tiny_mesh("quad4x2" if dim == 2 else "hex8")
@@ -344,6 +374,8 @@ def cases(tier):
     out.append(("extrapolate", case_extrapolate, {"family": "quad4x2"}))
     out.append(("extrapolate", case_extrapolate, {"family": "hex8"}))
     out.append(("extrapolate", case_extrapolate, {"family": "quad4x2_gl2"}))
+    for fd in (1, 3):
+        out.append(("force_other_dims", case_force_other_dims, {"fdim": fd}))
     out.append(("topoints", case_topoints, {"family": "quad4x2_gl2"}))
     out.append(("topoints", case_topoints, {"family": "quad4x2"}))
     out.append(("topoints", case_topoints, {"family": "hex8"}))
